@@ -16,6 +16,7 @@ type defInfo struct {
 	sites    map[types.Object][]defSite
 	addrOf   map[types.Object]bool // &x taken somewhere
 	declOnly map[types.Object]bool // declared with `var x T` (zero value) and never assigned
+	fieldMut map[types.Object]bool // a field / element of the variable is assigned somewhere (x.f = ..., x[i] = ...)
 }
 
 type defSite struct {
@@ -39,7 +40,7 @@ func (f *Func) Defs() *defInfo {
 	if r.defs != nil {
 		return r.defs
 	}
-	d := &defInfo{sites: map[types.Object][]defSite{}, addrOf: map[types.Object]bool{}, declOnly: map[types.Object]bool{}}
+	d := &defInfo{sites: map[types.Object][]defSite{}, addrOf: map[types.Object]bool{}, declOnly: map[types.Object]bool{}, fieldMut: map[types.Object]bool{}}
 	r.defs = d
 	info := r.Info()
 	objOf := func(x ast.Expr) types.Object {
@@ -55,9 +56,32 @@ func (f *Func) Defs() *defInfo {
 	if r.Body == nil {
 		return d
 	}
+	rootObj := func(x ast.Expr) types.Object {
+		for {
+			switch v := ast.Unparen(x).(type) {
+			case *ast.SelectorExpr:
+				x = v.X
+			case *ast.IndexExpr:
+				x = v.X
+			case *ast.StarExpr:
+				x = v.X
+			case *ast.Ident:
+				return info.Uses[v]
+			default:
+				return nil
+			}
+		}
+	}
 	ast.Inspect(r.Body, func(n ast.Node) bool {
 		switch s := n.(type) {
 		case *ast.AssignStmt:
+			for _, l := range s.Lhs {
+				if _, isIdent := ast.Unparen(l).(*ast.Ident); !isIdent {
+					if o := rootObj(l); o != nil {
+						d.fieldMut[o] = true
+					}
+				}
+			}
 			if s.Tok != token.ASSIGN && s.Tok != token.DEFINE {
 				for _, l := range s.Lhs {
 					if o := objOf(l); o != nil {
@@ -206,6 +230,16 @@ func (p *Program) canon(fn *Func, x ast.Expr, depth int) string {
 		if sel, ok := info.Selections[v]; ok {
 			switch sel.Kind() {
 			case types.FieldVal:
+				// field of a single-assignment local initialised with a composite literal: the field's value
+				if id, ok := ast.Unparen(v.X).(*ast.Ident); ok {
+					if obj := info.Uses[id]; obj != nil && !fn.Defs().fieldMut[obj] {
+						if lit := p.compositeOf(fn, id); lit != nil {
+							if fv := litField(lit, sel.Obj().Name()); fv != nil {
+								return p.canon(fn, fv, depth+1)
+							}
+						}
+					}
+				}
 				return p.canon(fn, v.X, depth+1) + "." + sel.Obj().Name()
 			default:
 				return p.canon(fn, v.X, depth+1) + ".method:" + sel.Obj().Name()
